@@ -1,2 +1,44 @@
-From Verif Require Import Model.Envelope.
-Example placeholder : 1 = 1. Proof. reflexivity. Qed.
+(* Properties/C11.v — Secret envelopes round-trip and reject corruption.
+   Only statements closed by [exact]; the proofs live in Proofs/Envelope*.v. *)
+From Verif Require Import Base.Bytes Model.Envelope Src.SrcEnvelope Proofs.EnvelopeBase64 Proofs.EnvelopeProofs.
+
+(* the parameters the Go source has today, as read by srcfacts on this run *)
+Definition src_params : env_params :=
+  {| ep_magic := envelope_magic; ep_version := envelope_version; ep_min_len := envelope_min_len |}.
+
+(* side conditions on the extracted constants, discharged by computation *)
+Theorem C11_src_params_wf : wf_params src_params /\ 12 <= ep_min_len src_params.
+Proof. exact (params_check_ok src_params eq_refl). Qed.
+
+(* wrapping any ciphertext (any bytes, any length, including empty) and unwrapping returns the same bytes *)
+Theorem C11_roundtrip : forall ct : string, decode_ct src_params (encode_ct src_params ct) = DOk ct.
+Proof. exact (fun ct => envelope_roundtrip src_params ct (proj1 C11_src_params_wf)). Qed.
+
+Theorem C11_base64_roundtrip : forall s : string, b64_decode (b64_encode s) = Some s.
+Proof. exact b64_decode_encode. Qed.
+
+(* decoding never panics, whatever the input *)
+Theorem C11_decode_total : forall repr, decode_ct src_params repr <> DPanic.
+Proof. exact (fun r => decode_no_panic src_params r (proj2 C11_src_params_wf)). Qed.
+
+(* cut below the minimum length => rejected *)
+Theorem C11_reject_short : forall bin, slen bin < 12 -> forall ct, decode_ct src_params (b64_encode bin) <> DOk ct.
+Proof. exact (fun bin H => reject_short src_params bin H). Qed.
+
+Theorem C11_reject_wrong_magic : forall bin, stake 4 bin <> envelope_magic ->
+  forall ct, decode_ct src_params (b64_encode bin) <> DOk ct.
+Proof. exact (reject_wrong_magic src_params). Qed.
+
+Theorem C11_reject_wrong_version : forall bin, be32_read (sdrop 4 bin) <> envelope_version ->
+  forall ct, decode_ct src_params (b64_encode bin) <> DOk ct.
+Proof. exact (reject_wrong_version src_params). Qed.
+
+Theorem C11_reject_wrong_checksum : forall bin,
+  crc32 (stake (String.length bin - 4) bin) <> be32_read (sdrop (String.length bin - 4) bin) ->
+  forall ct, decode_ct src_params (b64_encode bin) <> DOk ct.
+Proof. exact (reject_wrong_checksum src_params). Qed.
+
+(* non-vacuity: a concrete non-trivial envelope *)
+Example C11_example : decode_ct src_params (encode_ct src_params "hunter2") = DOk "hunter2"
+  /\ encode_ct src_params "" = "ZXNjeAAAAAEQbF1s".
+Proof. exact (conj eq_refl eq_refl). Qed.
